@@ -48,12 +48,13 @@ SUBDIRS = ["sub", "s+1", "deep er"]
 
 @st.composite
 def file_spec(draw, i):
-    kind = draw(st.sampled_from(KINDS))
+    kind = draw(st.sampled_from(KINDS + ["v10_json", "v10_yaml", "v10_xml"]))
     ext = draw(st.sampled_from(EXT.get(kind, [".xml", ".json", ".yaml", ".odml"])))
     f = {"kind": kind, "ext": ext, "key": draw(st.integers(0, 9)), "i": i,
          "dir": draw(st.sampled_from([[], [], [0], [1], [0, 2]]))}
     if kind.startswith("v10"):
         f["doc"] = draw(conv10.doc10(1))
+        f["native"] = draw(st.booleans())
     elif kind.startswith("v11"):
         f["doc"] = draw(S.doc_spec(max_depth=2, max_secs=2, max_props=2, tuples=False,
                                    text_classes=["plain", "comma"], falsy=False))
@@ -66,7 +67,8 @@ def cases(draw):
     files = [draw(file_spec(i)) for i in range(n)]
     tool = draw(st.sampled_from(["odmlconvert", "odmltordf", "fc_convert_dir", "fc_convert"]))
     case = {"files": files, "tool": tool, "recursive": draw(st.booleans()),
-            "explicit_out": draw(st.booleans()), "dirname": draw(st.sampled_from(DIRNAMES))}
+            "explicit_out": draw(st.booleans()), "dirname": draw(st.sampled_from(DIRNAMES)),
+            "trailing_sep": draw(st.booleans())}
     if tool.startswith("fc"):
         case["target"] = draw(st.sampled_from(["v1_1", "odml"] + RDF_FORMATS))
         case["pure"] = draw(st.booleans())
@@ -89,9 +91,9 @@ def write_tree(case, root):
         if kind == "v10_xml":
             data = conv10.emit_xml(f["doc"])
         elif kind == "v10_json":
-            data = conv10.emit_json(f["doc"])
+            data = conv10.emit_json(f["doc"], f.get("native", False))
         elif kind == "v10_yaml":
-            data = conv10.emit_yaml(f["doc"])
+            data = conv10.emit_yaml(f["doc"], f.get("native", False))
         elif kind.startswith("v11"):
             doc = build.build_doc(clean11(f["doc"]))
             backend = kind.split("_")[1].upper()
@@ -223,6 +225,7 @@ def body(case):
             outdir = os.path.join(root, "given out")
             os.makedirs(outdir)
         before = tree_state(root)
+        arg_indir = indir + os.sep if case.get("trailing_sep") else indir
         os.chdir(work)
         raised = None
         report = io.StringIO()
@@ -230,17 +233,17 @@ def body(case):
         try:
             with contextlib.redirect_stdout(report):
                 if tool == "odmlconvert":
-                    args = (["-r"] if case["recursive"] else []) + (["-o", outdir] if outdir else []) + [indir]
+                    args = (["-r"] if case["recursive"] else []) + (["-o", outdir] if outdir else []) + [arg_indir]
                     odml_convert.main(args)
                 elif tool == "odmltordf":
-                    args = (["-r"] if case["recursive"] else []) + (["-o", outdir] if outdir else []) + [indir]
+                    args = (["-r"] if case["recursive"] else []) + (["-o", outdir] if outdir else []) + [arg_indir]
                     odml_to_rdf.main(args)
                 elif tool == "fc_convert":
-                    args = [indir, target] + (["-out", outdir] if outdir else []) + \
+                    args = [arg_indir, target] + (["-out", outdir] if outdir else []) + \
                         (["-r"] if case["recursive"] else [])
                     FormatConverter.convert(args)
                 else:
-                    FormatConverter.convert_dir(indir, outdir, case["recursive"], target)
+                    FormatConverter.convert_dir(arg_indir, outdir, case["recursive"], target)
         except SystemExit as exc:
             raised = exc
         except Exception as exc:
@@ -338,7 +341,7 @@ def body(case):
 
 def plan(tier):
     if tier == "quick":
-        return [{"name": "trees%d" % i, "n": 40} for i in range(16)]
+        return [{"name": "trees%d" % i, "n": 60} for i in range(16)]
     return [{"name": "trees%d" % i, "n": 400} for i in range(16)]
 
 
